@@ -61,6 +61,7 @@ function act(c,   i) {
   else if (c == "W") print "more" >> "w0"
   else if (c == "g") getline junk < "r0"
   else if (c == "G") getline < "r1"
+  else if (c == "D") { dl_ = ""; print "dash", (getline dl_ < "-"), dl_ }
   else if (c == "l") getline
   else if (c == "M") match("xxabcd", /b+c/)
   else if (c == "v") { ARGV[3] = "r1"; ARGC = 4 }
@@ -123,7 +124,7 @@ type Case struct {
 var endings = []string{"", "", "", "exit-in-begin", "exit-in-rule", "exit-in-end", "error-in-function", "error-in-forin", "cancel-in-function", "regex-error", "nf-error", "error-in-function-begin", "cancel-in-function-begin"}
 
 func genRun(t *rapid.T, probe bool) Run {
-	letters := "affFoRPcmuOwWgGlMvdnzNSriItppx//"
+	letters := "affFoRPcmuOwWgGlMvdnzNSriItppx//DD"
 	var sb strings.Builder
 	for i := rapid.IntRange(0, 8).Draw(t, "nacts"); i > 0; i-- {
 		sb.WriteByte(letters[rapid.IntRange(0, len(letters)-1).Draw(t, "act")])
